@@ -205,6 +205,10 @@ func (g *pgen) node(depth int) []interface{} {
 			obj = eDot(eId("o"), "c")
 		} else {
 			obj = eObj("zz", eNum("1"), "aa", eStr("two"), "mm", t.genInt(1).e)
+			if r.Chance(1, 3) {
+				// a member that is present but null / undefined is still a member: the body runs for its key
+				obj = eObj("first", eStr("Ada"), "middle", eId([]string{"z", "undefinedVar"}[r.Intn(2)]), "last", t.genInt(1).e)
+			}
 		}
 		body := []interface{}{nBuf(eId(key), true), nText("="), nBuf(eId(val), true), nText(";")}
 		body = append(body, g.block(depth-2)...)
